@@ -817,8 +817,24 @@ func R15(p *core.Prog) *core.Result {
 			}
 		}
 	}
+	resetOwn := func() bool {
+		ctxT := typeObj(p, "gotype", "unfoldCtx")
+		if ctxT == nil {
+			return false
+		}
+		own := ownedStackFields(p, gp.Types, ctxT)
+		got := mustInitFields(p, reset, own, 0)
+		for f := range own {
+			if !got.has(f) {
+				return false
+			}
+		}
+		return len(own) > 0
+	}
 	if callsST {
 		r.Ok(".RESET", p.Pos(reset.Pos()), "Reset calls SetTarget(nil)")
+	} else if resetOwn() {
+		r.Ok(".RESET", p.Pos(reset.Pos()), "Reset re-initialises every owned stack itself (through the helper SetTarget(nil) uses)")
 	} else {
 		r.Fail(".RESET", "gotype.(*Unfolder).Reset", p.Pos(reset.Pos()), "Unfolder.Reset no longer calls SetTarget(nil)", "")
 	}
@@ -828,26 +844,7 @@ func R15(p *core.Prog) *core.Result {
 		r.Undecided("", "gotype.unfoldCtx", "type unfoldCtx not found")
 		return r
 	}
-	stc := ctxT.Type().Underlying().(*types.Struct)
-	owned := map[string]bool{}
-	for i := 0; i < stc.NumFields(); i++ {
-		f := stc.Field(i)
-		n := namedOf(f.Type())
-		if n == nil || n.Obj().Pkg() != gp.Types {
-			continue
-		}
-		if _, isPtr := f.Type().(*types.Pointer); isPtr {
-			continue
-		}
-		ms := types.NewMethodSet(types.NewPointer(n))
-		has := map[string]bool{}
-		for j := 0; j < ms.Len(); j++ {
-			has[methodName(ms.At(j).Obj())] = true
-		}
-		if has["init"] && (has["push"] && has["pop"] || has["reset"]) {
-			owned[f.Name()] = true
-		}
-	}
+	owned := ownedStackFields(p, gp.Types, ctxT)
 	r.Floor("owned_stack_fields", len(owned), 7)
 	// path walk of SetTarget: on the `to == nil` branch collect init/reset calls per field until return
 	k := &r15client{p: p, fn: st, num: newNumbering(), owned: owned, missing: map[string]bool{}}
@@ -927,12 +924,35 @@ type r15client struct {
 	owned        map[string]bool
 	missing      map[string]bool
 	sawNilReturn bool
+	helper     bool
+	depth      int
+	helperSeen bool
+	helperAll  stringSet
 }
 
 func (k *r15client) Key(s r15state) string                              { return fmt.Sprintf("%v|%s", s.nilBranch, s.done.key()) }
 func (k *r15client) Phis(s r15state, _ *ssa.BasicBlock, _ int) r15state { return s }
+// mustInitFields: the owned fields a helper method re-initialises on every path to a return (followed two levels).
+func mustInitFields(p *core.Prog, f *ssa.Function, owned map[string]bool, depth int) stringSet {
+	if f == nil || f.Blocks == nil || depth > 2 {
+		return stringSet{}
+	}
+	k := &r15client{p: p, fn: f, num: newNumbering(), owned: owned, missing: map[string]bool{}, helper: true, depth: depth}
+	if _, capped := WalkPaths[r15state](k, f.Blocks[0], 0, r15state{}, 100000, nil); capped || !k.helperSeen {
+		return stringSet{}
+	}
+	return k.helperAll
+}
+
 func (k *r15client) Instr(s r15state, in ssa.Instruction) (r15state, bool, []r15state) {
 	if c, ok := in.(*ssa.Call); ok {
+		// a helper method of the same receiver that does (part of) the re-initialisation
+		if sc := c.Common().StaticCallee(); sc != nil && sc.Signature.Recv() != nil && len(c.Common().Args) > 0 && len(k.fn.Params) > 0 &&
+			c.Common().Args[0] == ssa.Value(k.fn.Params[0]) && sc != k.fn && k.p.InModule(sc) {
+			for _, f := range mustInitFields(k.p, sc, k.owned, k.depth+1).ks {
+				s.done = s.done.with(f)
+			}
+		}
 		if sc := c.Common().StaticCallee(); sc != nil && (core.FuncName(sc) == "init" || core.FuncName(sc) == "reset") && len(c.Common().Args) > 0 {
 			// receiver is &u.unfoldCtx.F or &ctx.F
 			if fa, ok := c.Common().Args[0].(*ssa.FieldAddr); ok {
@@ -956,6 +976,20 @@ func (k *r15client) Branch(s r15state, cond ssa.Value, outcome bool) (r15state, 
 	return s, true
 }
 func (k *r15client) Return(s r15state, ret *ssa.Return) {
+	if k.helper {
+		if !k.helperSeen {
+			k.helperSeen, k.helperAll = true, s.done
+		} else {
+			var both stringSet
+			for _, f := range k.helperAll.ks {
+				if s.done.has(f) {
+					both = both.with(f)
+				}
+			}
+			k.helperAll = both
+		}
+		return
+	}
 	if !s.nilBranch {
 		return
 	}
@@ -1077,4 +1111,29 @@ func keyHasMapKeyType(p *core.Prog, v ssa.Value) bool {
 		}
 	}
 	return true
+}
+
+// ownedStackFields: fields of unfoldCtx whose type has an init method and (push+pop, or reset).
+func ownedStackFields(p *core.Prog, gpT *types.Package, ctxT types.Object) map[string]bool {
+	stc := ctxT.Type().Underlying().(*types.Struct)
+	owned := map[string]bool{}
+	for i := 0; i < stc.NumFields(); i++ {
+		f := stc.Field(i)
+		n := namedOf(f.Type())
+		if n == nil || n.Obj().Pkg() != gpT {
+			continue
+		}
+		if _, isPtr := f.Type().(*types.Pointer); isPtr {
+			continue
+		}
+		ms := types.NewMethodSet(types.NewPointer(n))
+		has := map[string]bool{}
+		for j := 0; j < ms.Len(); j++ {
+			has[methodName(ms.At(j).Obj())] = true
+		}
+		if has["init"] && (has["push"] && has["pop"] || has["reset"]) {
+			owned[f.Name()] = true
+		}
+	}
+	return owned
 }
